@@ -448,6 +448,7 @@ func runC13(c *Ctx) {
 }
 
 var c13Canaries = []Canary{
+	{Name: "r5-ls-tree-full-name", ExpectKey: "C13.R5#git.LsTree", Edits: []Edit{{File: "git/git.go", Find: "\t\t\"--full-tree\", // start at the root regardless of where we are in it", Repl: "\t\t\"--full-name\", // start at the root regardless of where we are in it"}}},
 	{Name: "r4-source-name-first", ExpectKey: "C13.R3#index-entry-name", Edits: []Edit{{File: "lfs/gitscanner_index.go", Find: "\t\t\tvar name string = scanner.Entry().DstName\n\t\t\tif len(name) == 0 {\n\t\t\t\tname = scanner.Entry().SrcName", Repl: "\t\t\tvar name string = scanner.Entry().SrcName\n\t\t\tif len(name) == 0 {\n\t\t\t\tname = scanner.Entry().DstName"}}},
 	{Name: "ok-after-mismatch", ExpectKey: "C13.R1#fsckPointer", Edits: []Edit{{File: "commands/command_fsck.go", Find: "	Print(fmt.Sprintf(\"objects: corruptObject: %s\", tr.Tr.Get(\"%s (%s) is corrupt\", name, oid)))\n	return false, nil", Repl: "	Print(fmt.Sprintf(\"objects: corruptObject: %s\", tr.Tr.Get(\"%s (%s) is corrupt\", name, oid)))\n	return size < 0, nil"}}},
 	{Name: "hash-compare-name", ExpectKey: "C13.R1#fsckPointer:intact-only-if-hash-matches", Edits: []Edit{{File: "commands/command_fsck.go", Find: "	if recalculatedOid == oid {", Repl: "	if recalculatedOid == name {"}}},
